@@ -198,6 +198,7 @@ def normalise_func(f, clsname, drop=()):
     # drop table statements (identified by position in the *original* body)
     if drop:
         node = _drop(node, drop)
+    node = _fold_typechecks(node, clsname)
     names = _locals_of(node)
     lmap = {n: "v%d" % i for i, n in enumerate(names)}
     node = _Rename(clsname, lmap).visit(node)
@@ -208,6 +209,60 @@ def normalise_func(f, clsname, drop=()):
     node.decorator_list = []
     ast.fix_missing_locations(node)
     return decos, ast.dump(node, annotate_fields=True, include_attributes=False), node
+
+
+def _fold_typechecks(node, own):
+    """partial evaluation for tree-node arguments of a tree built from `own`: `isinstance(x, <classes naming own>)` is True,
+    `all(True for ...)` is True, `not True` is False, `A and True` is A, `if True: B` is B, `if False: B else C` is C.  Only
+    tests whose class tuple names the mixin itself are folded: on a homogeneous tree they cannot fail."""
+    class F(ast.NodeTransformer):
+        def visit_Call(self, n):
+            self.generic_visit(n)
+            if isinstance(n.func, ast.Name) and n.func.id == "isinstance" and len(n.args) == 2:
+                t = n.args[1]
+                names = {norm(e) for e in (t.elts if isinstance(t, ast.Tuple) else [t])}
+                if own in names:
+                    return ast.copy_location(ast.Constant(value=True), n)
+            if isinstance(n.func, ast.Name) and n.func.id == "all" and len(n.args) == 1 and isinstance(n.args[0], (ast.GeneratorExp, ast.ListComp)) \
+                    and isinstance(n.args[0].elt, ast.Constant) and n.args[0].elt.value is True and not any(g.ifs for g in n.args[0].generators):
+                return ast.copy_location(ast.Constant(value=True), n)
+            return n
+
+        def visit_UnaryOp(self, n):
+            self.generic_visit(n)
+            if isinstance(n.op, ast.Not) and isinstance(n.operand, ast.Constant) and isinstance(n.operand.value, bool):
+                return ast.copy_location(ast.Constant(value=not n.operand.value), n)
+            return n
+
+        def visit_BoolOp(self, n):
+            self.generic_visit(n)
+            is_and = isinstance(n.op, ast.And)
+            vals = []
+            for v in n.values:
+                if isinstance(v, ast.Constant) and isinstance(v.value, bool):
+                    if v.value is is_and:
+                        continue  # neutral element
+                    return ast.copy_location(ast.Constant(value=v.value), n)  # absorbing element (operands before it have no effect here)
+                vals.append(v)
+            if not vals:
+                return ast.copy_location(ast.Constant(value=is_and), n)
+            if len(vals) == 1:
+                return vals[0]
+            n.values = vals
+            return n
+
+        def visit_If(self, n):
+            self.generic_visit(n)
+            if isinstance(n.test, ast.Constant) and isinstance(n.test.value, bool):
+                return (n.body if n.test.value else n.orelse) or None
+            return n
+    out = F().visit(node)
+    for x in ast.walk(out):
+        for field in ("body", "orelse"):
+            blk = getattr(x, field, None)
+            if isinstance(blk, list) and not blk and field == "body":
+                x.body = [ast.Pass()]
+    return out
 
 
 def _drop(node, drop_nodes):
@@ -412,13 +467,15 @@ def run(ctx):
             top = top.outer
         if top.cls is None or top.cls.name not in (nm.name, lm.name):
             continue
-        txt = norm(h.node).replace("_%s__" % top.cls.name, "_@__")
-        per.setdefault((top.srcname, top.kind, h.rule, txt), {})[top.cls.name] = h
+        import re as _re
+        txt = _re.sub(r"__(inl|gen|call)\d+", "", norm(h.node).replace("_%s__" % top.cls.name, "_@__"))
+        # (keyed by rule and construct, not by function: a helper may be inlined in one copy and not in the other)
+        per.setdefault(("*", "*", h.rule, txt), {})[top.cls.name] = h
     for key, d in sorted(per.items()):
         if len(d) == 1:
             cname, h = next(iter(d.items()))
             ctx.viol("M9", h.func, h.node, "identity-only rule %s is violated in %s only (%s): for node classes defining the special method "
-                     "the two mixins diverge" % (h.rule, cname, h.why), construct="%s.%s: %s one-sided" % (cname, key[0], key[3]))
+                     "the two mixins diverge" % (h.rule, cname, h.why), construct="%s.%s: %s one-sided" % (cname, h.func.srcname, key[3]))
     ctx.instances["M9"] += 1
     if struct_diffs:
         # members of the mutators that differ syntactically: equal programs in the sense that matters if the
